@@ -453,6 +453,13 @@ func (x *Exec) litUnit(u *Unit) {
 	}
 	// channels the body takes over: owned, open, nothing sent yet
 	env0 := x.makeEnv(sig, "", Term{}, entry, nil, nil, nil)(st, true)
+	if nm := u.Proc.Opts["tick"]; nm != "" {
+		if d, ok := env0.lookup(nm); ok && d.Sort == "Int" {
+			x.tickDur = d
+		} else {
+			x.problems = append(x.problems, "tick: unknown duration "+nm)
+		}
+	}
 	for _, nm := range splitList(u.Proc.Opts["takes"]) {
 		c, ok := env0.lookup(nm)
 		if !ok {
